@@ -3,6 +3,7 @@ package rules
 import (
 	"fmt"
 	"go/token"
+	"sort"
 	"strings"
 
 	"golang.org/x/tools/go/ssa"
@@ -41,14 +42,19 @@ func compileCommandSites(c *an.Ctx, r *runnerRoles) []ccSite {
 			if !ok {
 				continue
 			}
-			kind := "command"
-			switch fn {
-			case r.cond:
-				kind = "condition"
-			case r.before:
-				kind = "before"
-			case r.after:
-				kind = "after"
+			kind := commandKind(call.Call.Args[1], nil)
+			if kind == "?" {
+				// the command is a parameter of a shared helper: classify by its callers
+				kinds := map[string]bool{}
+				for _, src := range c.P.DeepSources(call.Call.Args[1], 2, true) {
+					kinds[commandKind(src, nil)] = true
+				}
+				var ks []string
+				for k := range kinds {
+					ks = append(ks, k)
+				}
+				sort.Strings(ks)
+				kind = strings.Join(ks, "+")
 			}
 			out = append(out, ccSite{call, fn, kind})
 		}
